@@ -3,6 +3,7 @@ module github.com/buzzfeed/sso/verif
 go 1.23
 
 require (
+	github.com/18F/hmacauth v0.0.0-20151013130326-9232a6386b73
 	github.com/benbjohnson/clock v0.0.0-20161215174838-7dc76406b6d3
 	github.com/buzzfeed/sso v0.0.0
 	github.com/datadog/datadog-go v0.0.0-20180822151419-281ae9f2d895
@@ -11,7 +12,6 @@ require (
 
 require (
 	cloud.google.com/go v0.39.0 // indirect
-	github.com/18F/hmacauth v0.0.0-20151013130326-9232a6386b73 // indirect
 	github.com/BurntSushi/toml v0.3.1 // indirect
 	github.com/aws/aws-sdk-go v1.23.12 // indirect
 	github.com/bitly/go-simplejson v0.5.0 // indirect
